@@ -38,6 +38,7 @@ type Result struct {
 	OverlayFile string         `json:"overlay_file"`
 	Sites       []Site         `json:"sites"`
 	Unowned     []string       `json:"unowned"`
+	FileAPI     bool           `json:"file_api"` // files are reached through an API that is not virtualised: the workers materialise them
 	Counts      map[string]int `json:"counts"`
 	Packages    []string       `json:"packages"`
 }
@@ -189,7 +190,10 @@ func Run(repoDir, verifDir, outDir, rtSource string) (*Result, error) {
 								repl = "Args"
 							case "os.ReadFile":
 								repl = "ReadFile"
-							case "os.Getpid", "os.Getppid", "os.Getenv", "os.Hostname", "os.Environ", "time.Since", "time.Sleep", "time.After", "time.Tick", "os.Open", "os.Create", "os.Getwd":
+							case "os.Open", "os.OpenFile", "os.Stat", "os.Lstat", "os.ReadDir", "io/ioutil.ReadFile", "io/ioutil.ReadAll", "os.DirFS":
+								res.Unowned = append(res.Unowned, rel(n.Pos())+" uses "+full)
+								res.FileAPI = true
+							case "os.Getpid", "os.Getppid", "os.Getenv", "os.Hostname", "os.Environ", "time.Since", "time.Sleep", "time.After", "time.Tick", "os.Create", "os.Getwd":
 								res.Unowned = append(res.Unowned, rel(n.Pos())+" uses "+full)
 							}
 							if repl != "" {
